@@ -203,6 +203,7 @@ class Rec:
         self.raised = False
         self.awaited = set()   # indices of emissions whose result was awaited / yielded
         self.jump = None       # 'break' / 'continue' until the enclosing loop consumes it
+        self.order = []        # ('store'|'emit'|'call', index) in program order
         self.awaited_calls = set()   # indices into calls of opaque calls whose value was awaited / yielded (name_calls mode)
         self.stale = set()     # texts of tests that may not be re-used (a value they mention was mutated since)
 
@@ -212,6 +213,7 @@ class Rec:
         r.jump = self.jump
         r.stale = set(self.stale)
         r.awaited_calls = set(self.awaited_calls)
+        r.order = list(self.order)
         r.env = dict(self.env)
         r.conds = list(self.conds)
         r.stores = list(self.stores)
@@ -281,6 +283,28 @@ class SymEval:
                 self_.generic_visit(n)
                 if isinstance(n.func, ast.Attribute) and n.func.attr == 'difference' and len(n.args) == 1:
                     return ast.BinOp(left=n.func.value, op=ast.Sub(), right=n.args[0])
+                # f(*((a, b) + rest))  ==  f(a, b, *rest);   f(*(a, b))  ==  f(a, b);   f(**{})  ==  f()
+                args = []
+                changed = False
+                for a in n.args:
+                    if isinstance(a, ast.Starred):
+                        v = a.value
+                        parts = []
+                        while isinstance(v, ast.BinOp) and isinstance(v.op, ast.Add) and isinstance(v.left, (ast.Tuple, ast.List)):
+                            parts.extend(v.left.elts)
+                            v = v.right
+                        if isinstance(v, (ast.Tuple, ast.List)):
+                            args.extend(parts + list(v.elts))
+                            changed = True
+                            continue
+                        if parts:
+                            args.extend(parts)
+                            args.append(ast.Starred(value=v, ctx=ast.Load()))
+                            changed = True
+                            continue
+                    args.append(a)
+                if changed:
+                    return ast.Call(func=n.func, args=args, keywords=n.keywords)
                 return n
         return ast.fix_missing_locations(T().visit(e)) if e is not None else None
 
@@ -330,6 +354,7 @@ class SymEval:
         elif isinstance(target, ast.Attribute) and isinstance(target.value, ast.Name) and target.value.id == 'self':
             r.env['self.' + target.attr] = value
             r.stores.append((target.attr, value, r.susp, loop))
+            r.order.append(('store', len(r.stores) - 1))
         elif isinstance(target, ast.Subscript) and isinstance(target.value, ast.Name) and isinstance(target.slice, ast.Constant) \
                 and isinstance(r.env.get(target.value.id), ast.Dict) \
                 and all(isinstance(k, ast.Constant) for k in r.env[target.value.id].keys):
@@ -347,6 +372,7 @@ class SymEval:
         else:
             tv = r.ev(target)
             r.calls.append((ast.Assign(targets=[tv], value=value, lineno=0), r.susp, loop))
+            r.order.append(('call', len(r.calls) - 1))
             base = tv
             while isinstance(base, (ast.Subscript, ast.Attribute)):
                 base = base.value
@@ -454,11 +480,13 @@ class SymEval:
                     return
             # emission
             if isinstance(f, ast.Attribute) and f.attr in ('_emit', 'emit') and isinstance(f.value, (ast.Name, ast.Attribute)):
-                q = r.copy()
-                data = self.val(q, node.args[0]) if node.args else None
                 mdn = next((k.value for k in node.keywords if k.arg == 'metadata'), node.args[1] if len(node.args) > 1 else None)
-                q.emits.append((data, self.val(q, mdn) if mdn is not None else None, q.susp, loop))
-                yield q, _sym('EMITRESULT', ast.Constant(value=len(q.emits) - 1))
+                for q0, data in (self.eval_value(r, node.args[0], fn, loop, depth) if node.args else [(r, None)]):
+                    for q1, md in (self.eval_value(q0, mdn, fn, loop, depth) if mdn is not None else [(q0, None)]):
+                        q = q1.copy()
+                        q.emits.append((data, md, q.susp, loop))
+                        q.order.append(('emit', len(q.emits) - 1))
+                        yield q, _sym('EMITRESULT', ast.Constant(value=len(q.emits) - 1))
                 return
             # nested awaits / helper calls in arguments: evaluate arguments left to right
             states = [(r, [])]
@@ -478,6 +506,7 @@ class SymEval:
                 call = ast.Call(func=fexpr, args=acc, keywords=[ast.keyword(arg=k.arg, value=self.val(q, k.value)) for k in node.keywords])
                 q = q.copy()
                 q.calls.append((call, q.susp, loop))
+                q.order.append(('call', len(q.calls) - 1))
                 # a local list literal that is appended to: functional update (inside a loop: one representative element)
                 if isinstance(f, ast.Attribute) and f.attr == 'append' and isinstance(f.value, ast.Name) and len(acc) == 1 \
                         and isinstance(q.env.get(f.value.id), ast.List) and not isinstance(acc[0], ast.Starred):
@@ -703,6 +732,26 @@ def _unlift(e):
                 return n.lifted
             return super().visit(n)
     return ast.fix_missing_locations(U().visit(e)) if e is not None else None
+
+
+def norm_cond(c, o):
+    """(text, outcome) of a recorded test with negations folded into the outcome:  not X / X is not Y / X != Y / X not in Y"""
+    if c.startswith('<'):
+        return c, o
+    try:
+        t = ast.parse(c, mode='eval').body
+    except SyntaxError:
+        return c, o
+    while True:
+        if isinstance(t, ast.UnaryOp) and isinstance(t.op, ast.Not):
+            t, o = t.operand, not o
+            continue
+        if isinstance(t, ast.Compare) and len(t.ops) == 1 and isinstance(t.ops[0], (ast.IsNot, ast.NotEq, ast.NotIn)):
+            op = {ast.IsNot: ast.Is, ast.NotEq: ast.Eq, ast.NotIn: ast.In}[type(t.ops[0])]()
+            t, o = ast.Compare(left=t.left, ops=[op], comparators=t.comparators), not o
+            continue
+        break
+    return src(t), o
 
 
 def nf(e):
